@@ -4,10 +4,10 @@ import (
 	"bytes"
 	"context"
 	"encoding/json"
+	"fmt"
 	"os"
 	"os/exec"
 	"runtime/pprof"
-	"fmt"
 	"sort"
 	"strings"
 	"sync"
@@ -80,13 +80,13 @@ func (ps *peerStore) Banned(string) (bool, error) { return false, nil }
 // in-flight counts and high-water marks per peer tag and per subnet.
 type gatedCM struct {
 	*chain.Manager
-	mu       sync.Mutex
-	subnetOf map[int]string
-	active   map[int]map[int]chan struct{} // peer tag -> rpc -> release channel
-	peerHigh map[int]int
-	subHigh  map[string]int
-	entered  chan [2]int
-	total    int
+	mu          sync.Mutex
+	subnetOf    map[int]string
+	active      map[int]map[int]chan struct{} // peer tag -> rpc -> release channel
+	peerHigh    map[int]int
+	subHigh     map[string]int
+	entered     chan [2]int
+	total       int
 	releasedSet map[chan struct{}]bool
 }
 
@@ -270,7 +270,9 @@ type slCfg struct {
 	Subnets []string // subnet (IP) per peer
 }
 
-func (c slCfg) String() string { return fmt.Sprintf("perPeer=%d perSubnet=%d peers=%v", c.L, c.M, c.Subnets) }
+func (c slCfg) String() string {
+	return fmt.Sprintf("perPeer=%d perSubnet=%d peers=%v", c.L, c.M, c.Subnets)
+}
 
 // runSlots executes one event sequence against a real Syncer and compares with the model.
 func runSlots(cfg slCfg, events []slEvent) (sig, what string) {
